@@ -44,6 +44,31 @@ theorem tnuc_first_ice (h : Hyp inp kCN i) (hice : never 0 (sigmaRow inp kCN i) 
   rw [nth_final, Nat.zero_add] at this
   exact ⟨by rw [timeVec_get _ _ h.dt_pos _ hk]; exact this.2.1, this.2.1⟩
 
+/-- **first ice, without any trajectory hypothesis**: if some stored column of vial `i` shows ice and
+`k₀` is the first one, the vial HAS a recorded nucleation time and it is at least `t[k₀]` (it is
+exactly `t[k₀]` when the vial keeps its ice, `tnuc_first_ice`; a vial that melted completely and
+nucleated again carries the later time). -/
+theorem tnuc_at_least_first_ice (hi : i < inp.nVials) (hdt : 0 < inp.p.dt) (hJ : JumpPos inp.p)
+    (hice : never 0 (sigmaRow inp kCN i) = false) :
+    ∃ τ, (finalV inp kCN i).tNuc = some τ ∧ timeAt inp.p.dt (crossIdx 0 (sigmaRow inp kCN i)) ≤ τ := by
+  obtain ⟨hk, hpos, hfirst⟩ := row_cross inp kCN i 0 hice
+  have hc := vtraj_chain inp kCN i hi
+  have h0 := fresh_start inp kCN i hi
+  have hlen : (vtraj inp kCN i).length = NN inp + 1 := vtraj_length inp kCN i
+  have hk0 : 0 < crossIdx 0 (sigmaRow inp kCN i) := by
+    rcases Nat.eq_zero_or_pos (crossIdx 0 (sigmaRow inp kCN i)) with h | h
+    · rw [h, h0.1] at hpos; exact absurd hpos (lt_irrefl _)
+    · exact h
+  obtain ⟨j, hj⟩ : ∃ j, crossIdx 0 (sigmaRow inp kCN i) = j + 1 := ⟨_, (Nat.succ_pred_eq_of_pos hk0).symm⟩
+  rw [hj] at hpos hfirst hk ⊢
+  have hz := zero_before_first_ice hc h0 hJ (j + 1) hfirst j (by omega) (by omega)
+  obtain ⟨q, _, _, ht, _⟩ := first_ice hc j (by omega) hz (ne_of_gt hpos)
+  obtain ⟨b, hb, hab⟩ := tnuc_mono hc h0 (le_of_lt hdt) (j + 1) (NN inp) (by omega) (by omega) _ ht
+  rw [nth_final] at hb
+  refine ⟨b, hb, ?_⟩
+  rw [Nat.zero_add, timeAt_succ] at hab
+  exact hab
+
 /-- **nucleation times lie on the grid**: `t_nucleation = (k+1)·dt` for an executed step `k < N`. -/
 theorem tnuc_grid (hi : i < inp.nVials) (τ : ℝ) (hτ : (finalV inp kCN i).tNuc = some τ) :
     ∃ k, k < NN inp ∧ τ = ((k : ℝ) + 1) * inp.p.dt := by
